@@ -45,6 +45,7 @@ BASE_ASSUME = [
     "rustc's type-checked MIR (mir_promoted) is a faithful over-approximation of the executions of /repo's current tree",
     "library effect labels and models in rules/ are as read from the library sources in the cargo registry / the nightly rust-src",
     "calls through unresolved trait objects/generics are matched by trait method; code outside the crate is trusted",
+    "rules/inline.py's copies of procedure-like and awaited private helpers into their callers (with return splitting and jump threading) preserve the paths of the original MIR",
 ]
 
 PROPS = {
